@@ -145,7 +145,148 @@ def pairs_task(arg):
     return out.dump()
 
 
+# ------------------------------------------------------------------ synthetic tuples: every rule of every period
+SYN = {
+    float: [0.0, 0.5, 235.85, 1800.0, 100000.0, -10.0],
+    int: [0, 1, 2, 30, 70],
+    bool: [False, True],
+}
+
+
+def synthetic_tuples(func, cap=300):
+    """Base tuple, all single and all pairwise deviations over typed alphabets (k <= 2), capped."""
+    import itertools
+
+    args = [a for a in inspect.signature(func).parameters if not a.endswith("_params")]
+    ann = func.__annotations__
+    alph = []
+    for a in args:
+        t = ann.get(a)
+        if t in SYN:
+            alph.append(SYN[t])
+        elif t is np.datetime64 or "datetime" in str(t):
+            alph.append([np.datetime64("1950-03-01"), np.datetime64("2001-12-31")])
+        else:
+            alph.append([0.0, 1.0, 235.85])
+    base = tuple(x[1] if len(x) > 1 else x[0] for x in alph)
+    out = [base]
+    seen = {repr(base)}
+    for i in range(len(args)):
+        for v in alph[i]:
+            t = base[:i] + (v,) + base[i + 1:]
+            if repr(t) not in seen:
+                seen.add(repr(t))
+                out.append(t)
+    for i, j in itertools.combinations(range(len(args)), 2):
+        for v in alph[i]:
+            for w in alph[j]:
+                t = list(base)
+                t[i], t[j] = v, w
+                t = tuple(t)
+                if repr(t) not in seen and len(out) < cap:
+                    seen.add(repr(t))
+                    out.append(t)
+    return args, out
+
+
+def synthetic_task(arg):
+    """Rules that the >= 2015 populations never reach (other periods, other graphs): typed argument alphabets."""
+    import datetime
+
+    from _gettsim.functions_loader import load_internal_functions
+
+    names, cap = arg
+    out = Partial()
+    fs = load_internal_functions()
+    for name in names:
+        func = fs[name]
+        info = getattr(func, "__info__", {}) or {}
+        if info.get("skip_vectorization"):
+            continue
+        s0 = info.get("start_date", datetime.date(1, 1, 1))
+        e0 = info.get("end_date", datetime.date(9999, 12, 31))
+        d = datetime.date(2023, 1, 1)
+        if not (s0 <= d <= e0):
+            d = e0 if e0 < d else s0
+        d = max(d, datetime.date(1985, 1, 1))
+        if d > e0:
+            continue
+        date_iso = d.isoformat()
+        try:
+            p, _ = harness.env(date_iso)
+        except Exception:  # noqa: BLE001
+            out.count("synthetic_env_failed")
+            continue
+        dag_name = info.get("name_in_dag", name)
+        try:
+            proc = _round_and_partial_parameters_to_functions({dag_name: _vectorize_func(func)}, p, rounding=False)[dag_name]
+            raw = _round_and_partial_parameters_to_functions({dag_name: func}, p, rounding=False)[dag_name]
+        except Exception:  # noqa: BLE001
+            out.count("synthetic_partial_failed")
+            continue
+        args, T = synthetic_tuples(func)
+        if not args:
+            continue
+        exp = {}
+        with np.errstate(all="ignore"):
+            for b in T:
+                try:
+                    v = raw(**dict(zip(args, b)))
+                    if isinstance(v, (dict, list, tuple, str)) or v is None:
+                        continue
+                    exp[b] = v
+                except Exception:  # noqa: BLE001
+                    pass
+        T = [t for t in T if t in exp][:cap]
+        if len(T) < 2:
+            out.count("synthetic_rules_without_usable_tuples")
+            continue
+        out.state(("synthetic", name))
+        dk = declared_kind(func)
+        kinds = {}
+        for a in T:
+            for b in T:
+                cols = {k: np.array([x, y]) for k, x, y in zip(args, a, b)}
+                try:
+                    with np.errstate(all="ignore"):
+                        res = np.asarray(proc(**cols))
+                except Exception:  # noqa: BLE001
+                    out.count("synthetic_wrapper_raises")
+                    continue
+                out.step()
+                if res.shape != (2,):
+                    continue
+                kinds.setdefault(res.dtype.kind, (a, b))
+                if not _same_value(_item(res[1]), exp[b]):
+                    out.violation(f"value-depends-on-first-row:{dag_name}",
+                                  {"date": date_iso, "rule": dag_name, "function": name, "first_row": dict(zip(args, a)), "row": dict(zip(args, b)),
+                                   "column_value": _item(res[1]), "rule_value": exp[b], "dtype": str(res.dtype), "synthetic": True},
+                                  f"{name} ({dag_name}) on {date_iso}: with first row {dict(zip(args, a))} the row {dict(zip(args, b))} gets {res[1]!r} ({res.dtype}), the rule returns {exp[b]!r}")
+        if len(kinds) > 1:
+            out.violation(f"dtype-depends-on-data:{dag_name}", {"date": date_iso, "rule": dag_name, "function": name, "synthetic": True,
+                                                                 "dtypes": {k: {"first": dict(zip(args, v[0]))} for k, v in kinds.items()}},
+                          f"{name} ({dag_name}) on {date_iso}: column dtype kind is one of {sorted(kinds)} depending on the first row")
+        elif kinds and dk and next(iter(kinds)) not in dk:
+            out.violation(f"dtype-differs-from-declaration:{dag_name}", {"date": date_iso, "rule": dag_name, "function": name, "declared": dk,
+                                                                         "dtype_kind": next(iter(kinds)), "synthetic": True},
+                          f"{name} ({dag_name}) on {date_iso}: declared kind {dk}, column dtype kind {next(iter(kinds))}")
+        out.outcome((name, tuple(sorted(kinds))))
+    return out.dump()
+
+
 def replay(case):
+    if case.get("synthetic") and "first_row" in case:
+        from _gettsim.functions_loader import load_internal_functions
+
+        func = load_internal_functions()[case["function"]]
+        p, _ = harness.env(case["date"])
+        n = case["rule"]
+        proc = _round_and_partial_parameters_to_functions({n: _vectorize_func(func)}, p, rounding=False)[n]
+        raw = _round_and_partial_parameters_to_functions({n: func}, p, rounding=False)[n]
+        a, b = case["first_row"], case["row"]
+        res = np.asarray(proc(**{k: np.array([a[k], b[k]]) for k in a}))
+        want = raw(**b)
+        return _same_value(_item(res[1]), want), f"column {res[1]!r} ({res.dtype}) rule {want!r}"
     date_iso, n = case["date"], case["rule"]
     p, f = harness.env(date_iso)
     rules = scalar_rules(f)
@@ -201,7 +342,13 @@ def run(tier):
             ptasks.append((d, items[k : k + 12], cap))
     for part in harness.pmap(pairs_task, harness.rotate(ptasks)):
         rep.merge(part)
-    rep.bound = {"dates": sorted(per_date), "tuples_harvested": ntup, "pair_cap_per_rule": cap, "deviation_bound_k": 1,
+    from _gettsim.functions_loader import load_internal_functions
+
+    allnames = sorted(load_internal_functions())
+    scap = 300 if thorough else 25
+    for part in harness.pmap(synthetic_task, harness.rotate([(allnames[i::48], scap) for i in range(48)])):
+        rep.merge(part)
+    rep.bound = {"dates": sorted(per_date), "tuples_harvested": ntup, "synthetic_rules": len(allnames), "synthetic_pair_cap": scap, "pair_cap_per_rule": cap, "deviation_bound_k": 1,
                  "households": list(popgen.LIBRARY)}
     rep.assumptions = ["argument tuples are those the rules actually receive in the population universe (library households x single-attribute deviations)",
                        "a rule's 'value for a row' is the scalar function called with that row's inputs as Python scalars and the date's parameters"]
@@ -209,5 +356,7 @@ def run(tier):
         "per date and scalar rule: the distinct argument tuples harvested from all-nodes simulations of the library households (+ k=1 "
         "deviations), then every ordered pair (first row, other row) through the production wrapper (_vectorize_func + partialled params) "
         "as a 2-row array: second element must equal the scalar rule's value, dtype must not depend on the first row and must match the "
-        "declared result type; graph level: every rule column equals the rule applied row-wise to its parent columns"
+        "declared result type; graph level: every rule column equals the rule applied row-wise to its parent columns; in addition EVERY internal "
+        "rule of every validity period (incl. those never reached by the >= 2015 populations) on typed argument alphabets (base tuple, all single "
+        "and pairwise deviations) with the same pair oracle"
     )
